@@ -213,7 +213,17 @@ def build(S, tier):
             hy = list(p.pc)
             kinds.add(g.get("kind"))
             # ---- prologue (common to both kinds of path)
-            pl, ps = g["prologue_log"], g["prologue_state"]
+            if "prologue_log" in g:
+                pl, ps = g["prologue_log"], g["prologue_state"]
+            else:
+                # irun returned without ever reaching its loop: everything it did is prologue
+                mc_ = p.value["mc"] if p.status == "return" and isinstance(p.value, dict) else None
+                if mc_ is None:
+                    S.unsupported.append((label, "irun left before its loop on a path that did not return normally"))
+                    continue
+                pl = list(g["log"])
+                ps = dict(step_count=mc_.attrs["step_count"], max_steps=mc_.attrs["max_steps"], flag=mc_.attrs.get("_initial_observers_called"))
+                S.prove(f"{label}#ensures.returns_before_the_loop_only_when_no_step_is_due@{i}", steps <= 0, hyps=hy, why="irun returned without entering its loop")
             first = z3.And(s0 == 0, z3.Not(flag0))
             fired = [e[0] for e in pl if e[0] in ("header", "call_observers")]
             S.prove(f"{label}#ensures.validate_first@{i}", bool(pl) and pl[0][0] == "validate", kind="ensures", why=str(pl))
